@@ -32,7 +32,7 @@ def one(b, cm, nrs, s, side, klass):
 def run(rep, tier, seed):
     rnd = rng_for(seed, 'C20')
     b = Batch(rep)
-    n = 60 if tier == 'quick' else 700
+    n = 100 if tier == 'quick' else 1000
     for i in range(n):
         stack, pkt, st, pd = gen_parsed(rnd, STACKS[i % len(STACKS)])
         pd.direction = DI.UP
